@@ -22,6 +22,8 @@ def comps():
     c['i1'] = lambda i: [('a%d' % i, I(1))]
     c['i2'] = lambda i: [('a%d' % i, I(2))]
     c['i3s'] = lambda i: [('a%d' % i, I(3, signed=True, end='little'))]
+    c['i1s'] = lambda i: [('a%d' % i, I(1, signed=True))]
+    c['i2s'] = lambda i: [('a%d' % i, I(2, signed=True))]
     c['b35'] = lambda i: [('p%d' % i, B(3)), ('q%d' % i, B(5))]
     c['b44'] = lambda i: [('p%d' % i, B(4)), ('q%d' % i, B(4))]
     c['b17'] = lambda i: [('p%d' % i, B(1)), ('q%d' % i, B(7))]
@@ -78,6 +80,12 @@ def corpus_for(dc, tier):
     L2 = 2 if tier == 'quick' else 3
     out = list(alphabet.all_strings(base, L1))
     seen = set(out)
+    # negative values of signed integers: bytes with the top bit set
+    neg = [0xff, 0x80] if 'signed' in alphabet.scan(dc.P) else []
+    for s in alphabet.all_strings(base[:2] + neg, L1):
+        if neg and s not in seen:
+            seen.add(s)
+            out.append(s)
     for s in alphabet.all_strings(base[:2] + META, L2):
         if s not in seen:
             seen.add(s)
@@ -115,8 +123,18 @@ def check_decl(dc, st, tier, only=None):
             if corpus[i][:1] == bytes([m]) and unpacked[i] is not None:
                 order.append(i)
                 break
+    # negative values of signed integers: for each of the first three positions the first parsed packet with 0xff / 0x80 there
+    nneg = 0
+    if 'signed' in alphabet.scan(dc.P):
+        for m in (0xff, 0x80):
+            for pos in range(3):
+                for i in sorted(range(len(corpus)), key=lambda i: (len(corpus[i]), corpus[i])):
+                    if corpus[i][pos:pos + 1] == bytes([m]) and unpacked[i] is not None and i not in order:
+                        order.append(i)
+                        nneg += 1
+                        break
     order += sorted(range(len(corpus)), key=lambda i: (len(corpus[i]), corpus[i]))
-    cap = len(META) + (2 if tier == 'quick' else 8)
+    cap = len(META) + nneg + (2 if tier == 'quick' else 8)
     for i in order:
         p = unpacked[i]
         if p is None:
